@@ -180,6 +180,9 @@ package state
 //@   ensures[earlier-unaltered] forall i in 0..old(len(sc.transfers)) :: sc.transfers[i].Amount == old(sc.transfers[i].Amount) && sc.transfers[i].ClientID == old(sc.transfers[i].ClientID) && sc.transfers[i].ToClientID == old(sc.transfers[i].ToClientID)
 //@   ensures[argument-unaltered] t.Amount == old(t.Amount) && t.ClientID == old(t.ClientID) && t.ToClientID == old(t.ToClientID)
 //@   ensures[rejected-queues-nothing] result != nil ==> len(sc.transfers) == old(len(sc.transfers))
+// a queue whose sources are all the sender or the called contract stays such a queue
+//@   ensures[sources-stay-restricted] old(forall i in 0..len(sc.transfers) :: sc.transfers[i].ClientID == sc.txn.ClientID || sc.transfers[i].ClientID == sc.txn.ToClientID) ==> (forall i in 0..len(sc.transfers) :: sc.transfers[i].ClientID == sc.txn.ClientID || sc.transfers[i].ClientID == sc.txn.ToClientID)
+//@   ensures sc.txn == old(sc.txn) && sc.txn.ClientID == old(sc.txn.ClientID) && sc.txn.ToClientID == old(sc.txn.ToClientID)
 //@   ensures len(sc.signedTransfers) == old(len(sc.signedTransfers))
 //@   modifies sc.transfers, sc.transfers[*]
 //@   lock-balanced sc.mutex
